@@ -1,8 +1,12 @@
 import RisorModel.C01.Sem
+import RisorModel.C01.SemLemmas
 /-!
 C01 — property theorems about the reference semantics (Spec sanity: these make `Sem`
 trustworthy to read).  Each holds for every program fragment, state and fuel.
 Compiler-correctness theorems for the proved fragment live in `FragProps.lean`.
+
+Second half: `error`, `try`, `defer`, pipes.  `St.out` is the print log, most recent line
+FIRST; `St.defers` holds the deferred calls of the running activation, most recent first.
 -/
 namespace Risor.C01
 
@@ -46,5 +50,246 @@ theorem ternary_one_branch (f : Nat) (c a b : N) (env : Env) (st st1 : St) (v : 
     (hc : evalE f c env st = (.val v, st1)) :
     evalE (f + 1) (.tern c a b) env st = if v.truthy st1 then evalE f a env st1 else evalE f b env st1 := by
   simp [evalE, hc]
+
+/-! ### error and try -/
+
+/-- `error(msg)` raises: the call does not produce a value but the raised-error signal carrying
+    the message (for every message without a format verb, every state with call budget left). -/
+theorem error_raises (f : Nat) (msg : String) (st : St) (hs : st.steps ≠ 0) (hm : msg.contains '%' = false) :
+    callVal (f + 1) (.builtin "error") [.str msg] st = (.uerr msg, { st with steps := st.steps - 1 }) := by
+  simp [callVal, hs, hm]
+
+/-- `error(e)` on an error VALUE raises that error again with its class and message. -/
+theorem error_reraises (f : Nat) (cls : String) (msg : Option String) (rest : List Val) (st : St) (hs : st.steps ≠ 0) :
+    callVal (f + 1) (.builtin "error") (.err cls msg :: rest) st = (raiseOf cls msg, { st with steps := st.steps - 1 }) := by
+  simp [callVal, hs]
+
+/-- integer division by zero is a Go panic … -/
+theorem division_by_zero_is_panic (st : St) (x : Int) : binop st .div (.int x) (.int 0) = (.err "panic", st) := by
+  simp [binop]
+
+/-- … and a panic, like the errz-fatal classes, is not catchable; type / index / script errors are. -/
+theorem uncatchable_classes :
+    uncatchable "panic" = true ∧ uncatchable "eval" = true ∧ uncatchable "args" = true ∧
+    uncatchable "type" = false ∧ uncatchable "index" = false ∧ uncatchable "error" = false := by
+  decide
+
+/-- `try` with nothing left to try yields nil. -/
+theorem try_exhausted (f : Nat) (last : Option Val) (st : St) :
+    tryArgs (f + 1) [] last st = (.val .nil, st) := by
+  simp [tryArgs]
+
+/-- an argument that is not a function or builtin is returned as the value of `try`; the
+    remaining arguments are not looked at and the state is unchanged. -/
+theorem try_value_argument (f : Nat) (a : Val) (rest : List Val) (last : Option Val) (st : St)
+    (hc : callable a = false) :
+    tryArgs (f + 1) (a :: rest) last st = (.val a, st) := by
+  simp [tryArgs, hc]
+
+/-- the first callable argument that returns a value decides `try`: later arguments (handlers)
+    are not called.  It is called with `tryCallArgs`: the last caught error, if any — to a
+    function only if it declares a parameter. -/
+theorem try_returns_first_success (f : Nat) (a : Val) (rest : List Val) (last : Option Val) (st st1 : St) (v : Val)
+    (hc : callable a = true)
+    (h : callVal f a (tryCallArgs st a last) st = (.val v, st1)) :
+    tryArgs (f + 1) (a :: rest) last st = (.val v, st1) := by
+  simp [tryArgs, hc, h]
+
+/-- `try` CATCHES every error whose class is not fatal: evaluation goes on with the remaining
+    arguments, in the state the failed call left (its print log and assignments are kept), and the
+    error — class and message — is what the next handler receives. -/
+theorem try_catches_nonfatal (f : Nat) (a : Val) (rest : List Val) (last : Option Val) (st st1 : St)
+    (sg : Sig) (cls : String) (msg : Option String)
+    (hc : callable a = true)
+    (h : callVal f a (tryCallArgs st a last) st = (sg, st1))
+    (he : sg.errInfo = some (cls, msg)) (hcatch : uncatchable cls = false) :
+    tryArgs (f + 1) (a :: rest) last st = tryArgs f rest (some (.err cls msg)) st1 := by
+  cases sg <;> simp_all [tryArgs, Sig.errInfo]
+
+/-- `try` lets FATAL errors through (errz: eval and args errors; and recovered Go panics such as
+    division by zero): the raised error is the outcome of `try` itself, no handler runs. -/
+theorem try_propagates_fatal (f : Nat) (a : Val) (rest : List Val) (last : Option Val) (st st1 : St)
+    (sg : Sig) (cls : String) (msg : Option String)
+    (hc : callable a = true)
+    (h : callVal f a (tryCallArgs st a last) st = (sg, st1))
+    (he : sg.errInfo = some (cls, msg)) (hfatal : uncatchable cls = true) :
+    tryArgs (f + 1) (a :: rest) last st = (sg, st1) := by
+  cases sg <;> simp_all [tryArgs, Sig.errInfo]
+
+/-- the handler receives the error only if it declares a parameter. -/
+theorem try_handler_arguments (st : St) (id : Nat) (clo : Closure) (e : Val) (h : st.funcs[id]? = some clo) :
+    tryCallArgs st (.fn id) (some e) = if clo.params.length > 0 then [e] else [] := by
+  simp [tryCallArgs, h]
+
+/-! ### defer -/
+
+/-- `defer f(args)` evaluates the callee, then the arguments, NOW, and records the call in front
+    of the activation's deferred calls; nothing is called. -/
+theorem defer_registers (f : Nat) (fe args : N) (env : Env) (st st1 st2 : St) (fv : Val) (vs : List Val)
+    (hd : st.depth ≠ 0)
+    (hf : evalE f fe env st = (.val fv, st1))
+    (ha : evalArgs f args env st1 = (.ok vs, st2)) :
+    execS (f + 1) (.defer_ (.call fe args)) env st = (.unit, env, { st2 with defers := (fv, vs) :: st2.defers }) := by
+  simp [execS, hd, hf, ha]
+
+/-- `defer` outside of a function is rejected (the real compiler rejects the program). -/
+theorem defer_at_top_level_rejected (f : Nat) (c : N) (env : Env) (st : St) (hd : st.depth = 0) :
+    (execS (f + 1) (.defer_ c) env st).1 = .err "compile" := by
+  cases c <;> simp [execS, hd]
+
+/-- a function call whose body ends — with a value OR with a raised error — leaves through its
+    deferred calls: the outcome of the call is what `runDefers` makes of the body's outcome and
+    the calls recorded during the body; afterwards the caller's own deferred calls are back. -/
+theorem call_leaves_through_defers (f id : Nat) (args : List Val) (st st1 st2 : St) (clo : Closure)
+    (env env' : Env) (stmts : N) (sg out : Sig)
+    (hs : st.steps ≠ 0) (hf : st.funcs[id]? = some clo)
+    (hn : args.length ≤ clo.params.length) (hd : st.depth < 200)
+    (hb : callVal.bind clo.params args clo.env { st with steps := st.steps - 1, depth := st.depth + 1, defers := [] } = some (env, st1))
+    (hbody : clo.body = .block stmts)
+    (hex : execStmts f stmts env st1 = (sg, env', st2))
+    (hout : bodyOutcome sg = some out) :
+    callVal (f + 1) (.fn id) args st =
+      ((runDefers f st2.defers out { st2 with defers := [] }).1,
+       { (runDefers f st2.defers out { st2 with defers := [] }).2 with
+          depth := (runDefers f st2.defers out { st2 with defers := [] }).2.depth - 1, defers := st.defers }) := by
+  have hn' : ¬ (clo.params.length < args.length) := by omega
+  have hd' : ¬ (200 ≤ st.depth) := by omega
+  cases sg <;> simp [bodyOutcome] at hout <;> subst hout <;>
+    simp [callVal, hs, hf, hn', hd', hb, hbody, hex]
+
+/-- a deferred call that returns: its result is discarded, the outcome stands, the next one runs. -/
+theorem defer_result_discarded (f : Nat) (fv : Val) (args : List Val) (rest : List (Val × List Val))
+    (out : Sig) (st st1 : St) (v : Val)
+    (h : callVal f fv args st = (.val v, st1)) :
+    runDefers (f + 1) ((fv, args) :: rest) out st = runDefers f rest out st1 := by
+  simp [runDefers, h]
+
+/-- an error raised by a deferred call REPLACES the function's outcome (value or earlier error),
+    and the remaining deferred calls still run — unless a panic is involved. -/
+theorem defer_error_replaces_outcome (f : Nat) (fv : Val) (args : List Val) (rest : List (Val × List Val))
+    (out sg : Sig) (st st1 : St) (cls : String) (msg : Option String)
+    (h : callVal f fv args st = (sg, st1)) (he : sg.errInfo = some (cls, msg))
+    (hp : cls ≠ "panic") (ho : out.errInfo.map (·.1) ≠ some "panic") :
+    runDefers (f + 1) ((fv, args) :: rest) out st = runDefers f rest sg st1 := by
+  cases sg <;> simp_all [runDefers, Sig.errInfo]
+
+/-- LIFO: when the deferred calls are prints — `ds` lists their argument lists, most recently
+    deferred first — they write their lines in that order after everything the body printed
+    (`st.out` is most-recent-first, so the new lines appear reversed in front of it), whatever the
+    function's outcome `out` is (value or error), and leave the outcome alone. -/
+theorem defer_lifo (out : Sig) (ds : List (List Val)) :
+    ∀ (f : Nat) (st : St), ds.length ≤ st.steps → ds.length < f →
+      (∀ a ∈ ds, a.any (textUnknown st 8) = false) →
+      runDefers f (ds.map fun a => (Val.builtin "print", a)) out st =
+        (out, { st with steps := st.steps - ds.length, out := (ds.map (printLine st)).reverse ++ st.out }) := by
+  induction ds with
+  | nil =>
+    intro f st _ hf _
+    cases f with
+    | zero => omega
+    | succ f => simp [runDefers]
+  | cons a rest ih =>
+    intro f st hs hf ht
+    match f, hf with
+    | f + 2, hf =>
+      simp only [List.length_cons] at hs hf
+      have hs0 : st.steps ≠ 0 := by omega
+      have hta : a.any (textUnknown st 8) = false := ht a (by simp)
+      simp only [List.map_cons, runDefers, print_call f a st hs0 hta]
+      let st1 : St := { st with steps := st.steps - 1, out := printLine st a :: st.out }
+      have hrest := ih (f + 1) st1 (by simp [st1]; omega) (by omega)
+        (by
+          intro b hb
+          have := ht b (by simp [hb])
+          rw [← this]
+          congr 1
+          exact funext (textUnknown_heap st1 st rfl 8))
+      rw [hrest]
+      have hp : ∀ b, printLine st1 b = printLine st b := fun b => printLine_heap st1 st rfl b
+      simp [st1, hp]
+      omega
+
+/-! ### pipes -/
+
+/-- an ordinary call: callee, then arguments left to right, then the call. -/
+theorem call_is_callVal (f : Nat) (fe args : N) (env : Env) (st st1 st2 : St) (fv : Val) (vs : List Val)
+    (hf : evalE f fe env st = (.val fv, st1))
+    (ha : evalArgs f args env st1 = (.ok vs, st2)) :
+    evalE (f + 1) (.call fe args) env st = callVal f fv vs st2 := by
+  simp [evalE, hf, ha]
+
+/-- `x | f(a…)` is the call `f(x, a…)`: the piped value is evaluated first, then the callee and
+    the written arguments, and the callee receives the piped value as its FIRST argument. -/
+theorem pipe_is_call (g : Nat) (x fe args : N) (env : Env) (st st1 st2 st3 : St) (xv fv : Val) (vs : List Val)
+    (hx : evalE (g + 1) x env st = (.val xv, st1))
+    (hf : evalE g fe env st1 = (.val fv, st2))
+    (ha : evalArgs g args env st2 = (.ok vs, st3)) :
+    evalE (g + 2) (.pipe (.cons x (.cons (.call fe args) .nilL))) env st = callVal g fv (xv :: vs) st3 := by
+  rw [evalE]
+  · simp only [hx]
+    simp only [evalPipe, hf, ha]
+    cases g with
+    | zero => rw [evalE] at hf; simp at hf
+    | succ g =>
+      generalize callVal (g + 1) fv (xv :: vs) st3 = r
+      obtain ⟨sg, st4⟩ := r
+      cases sg <;> simp [evalPipe_done]
+  all_goals simp
+
+/-- `x | e` where `e` is not itself a call: the value of `e` is called with `x`. -/
+theorem pipe_bare_stage (g : Nat) (x e : N) (env : Env) (st st1 st2 : St) (xv fv : Val)
+    (hcall : ∀ fe args, e ≠ .call fe args) (hm : ∀ o n a, e ≠ .mcall o n a) (hp : ∀ s, e ≠ .pipe s)
+    (hx : evalE (g + 1) x env st = (.val xv, st1))
+    (hf : evalE g e env st1 = (.val fv, st2)) :
+    evalE (g + 2) (.pipe (.cons x (.cons e .nilL))) env st = callVal g fv [xv] st2 := by
+  rw [evalE]
+  · simp only [hx]
+    rw [evalPipe]
+    · simp only [hf]
+      cases g with
+      | zero => rw [evalE] at hf; simp at hf
+      | succ g =>
+        generalize callVal (g + 1) fv [xv] st2 = r
+        obtain ⟨sg, st4⟩ := r
+        cases sg <;> simp [evalPipe_done]
+    all_goals (intros; simp_all)
+  all_goals simp
+
+/-- stages run left to right: after a stage returned `y`, the rest of the pipe goes on with `y`;
+    a stage that fails ends the pipe with its error. -/
+theorem pipe_stage_then_rest (g : Nat) (xv : Val) (fe args rest : N) (env : Env) (st st1 st2 : St) (fv : Val) (vs : List Val)
+    (hf : evalE g fe env st = (.val fv, st1))
+    (ha : evalArgs g args env st1 = (.ok vs, st2)) :
+    evalPipe (g + 1) xv (.cons (.call fe args) rest) env st =
+      match callVal g fv (xv :: vs) st2 with
+      | (.val y, st3) => evalPipe g y rest env st3
+      | other => other := by
+  simp only [evalPipe, hf, ha]
+  generalize callVal g fv (xv :: vs) st2 = r
+  obtain ⟨sg, st3⟩ := r
+  cases sg <;> rfl
+
+/-! ### the hypotheses are satisfiable
+Whole programs exercising every theorem above (`c01DirectedErrors` in harness/c01.go: LIFO order,
+arguments evaluated at the defer statement, errors in and around deferred calls, what try catches
+and what it does not, pipes) are evaluated by this semantics and by the real pipeline on every
+run; here, small closed instances that the kernel evaluates. -/
+
+/-- two deferred prints, `d2` deferred last: it prints first (the log is most-recent-first) -/
+example : (runDefers 3 [(.builtin "print", [.str "d2"]), (.builtin "print", [.str "d1"])] (.val (.int 7)) {}).2.out
+    = ["d1", "d2"] := by rfl
+
+/-- a deferred `error(e)` (e = a caught error "late") replaces the value 7 -/
+example : (runDefers 3 [(.builtin "error", [.err "error" (some "late")])] (.val (.int 7)) {}).1.errInfo
+    = some ("error", some "late") := by rfl
+
+/-- `try` with a caught script error pending: the failing builtin handler (`error` raises its
+    argument again) is caught as well and the plain value 4 is the result -/
+example : (tryArgs 3 [.builtin "error", .int 4] (some (.err "error" (some "boom"))) {}).1.errInfo = none := by rfl
+
+/-- an args error (fatal) is not caught: `try(len)` calls `len()` -/
+example : (tryArgs 3 [.builtin "len", .int 4] none {}).1.errInfo = some ("args", none) := by rfl
+
+example : callable (.builtin "print") = true ∧ callable (.fn 0) = true ∧ callable (.int 1) = false := ⟨rfl, rfl, rfl⟩
 
 end Risor.C01
